@@ -941,6 +941,21 @@ def run(ctx):
     for cls in models.ALL_CLASSES:
         for it in range(ctx.n(4, 40)):
             k5_starts(ctx, c10_instance(rng, cls, constraints=rng.random() < 0.3, feats=True))
+    # MinFlowDecomp / MinFlowDecompCycles take additional starts / ends in node mode only: declaring a node that already is a
+    # source (sink) must change nothing
+    for cls in ("MinFlowDecomp", "MinFlowDecompCycles"):
+        for it in range(ctx.n(3, 20)):
+            inst = models.node_instance(rng, cls)
+            inst["starts"], inst["ends"] = [], []
+            es = [tuple(e) for e in inst["edges"]]
+            srcs = [v for v in inst["nodes"] if not any(b == v for a, b in es)]
+            snks = [v for v in inst["nodes"] if not any(a == v for a, b in es)]
+            if not srcs or not snks:
+                continue
+            if it % 2:
+                starts_node_min_case(ctx, inst, [rng.choice(srcs)], [])
+            else:
+                starts_node_min_case(ctx, inst, [], [rng.choice(snks)])
     # (e) MinErrorFlow
     for it in range(ctx.n(25, 200)):
         k5_minerrorflow(ctx, rng)
@@ -960,9 +975,28 @@ def greedy_length_instance(rng, cls):
     return inst
 
 
+def starts_node_min_case(ctx, inst, starts, ends, suite="K5.starts_ends.node_mode_min"):
+    cls = inst["cls"]
+    base = outcome(ctx.fp, inst)
+    var = dict(copy.deepcopy(inst), starts=list(starts), ends=list(ends))
+    got = outcome(ctx.fp, var)
+    ctx.rep.cov["oracle_evaluations"] += 1
+    ctx.rep.count(suite, [inst, starts, ends], nontrivial=base["status"] == "solved", hist=[cls, base["status"], got["status"]])
+    if "timeout" in (base["status"], got["status"]):
+        return
+    if not same_outcome(base, got):
+        ctx.violation(f"{cls} (node-weighted): declaring the source/sink {starts or ends} as additional start/end "
+                      f"changes the result from {brief(base)} to {brief(got)}" + (f" ({got.get('msg')})" if got.get("msg") else ""),
+                      {"oracle": "starts_node_min", "inst": inst, "starts": list(starts), "ends": list(ends),
+                       "base": brief(base), "got": brief(got), "msg": got.get("msg")}, site=f"{cls}.node_mode_starts_ends")
+
+
 def finding_case(ctx, inp):
     orc = inp.get("oracle")
     suite = "known-findings"
+    if orc == "starts_node_min":
+        starts_node_min_case(ctx, inp["inst"], inp.get("starts", []), inp.get("ends", []), suite=suite)
+        return
     if orc == "containment":
         k5_containment(ctx, inp["inst"], suite=suite)
     elif orc == "minerrorflow":
